@@ -16,12 +16,18 @@ RULE = (
     "is compared with a plain-Python matcher working on the descriptors (PMS order from the C01 reference, '~' ignoring "
     "the revision, '=v*' as component-list prefix, equality for slot/sub-slot/repo, USE deps with (+)/(-) deciding flags "
     "absent from IUSE, blocker ignored). A class is (operator, first failing constraint | match | match decided by a "
-    "default | glob string-prefix-but-not-component-prefix); distinct_nontrivial counts classes observed."
+    "default | glob string-prefix-but-not-component-prefix); distinct_nontrivial counts classes observed. "
+    "History dimension (the verdict must be a function of the (atom, package) pair alone): for every pair of equal but "
+    "differently spelled versions (leading-zero component, suffix number 0 vs none, both directions) every ordered pair "
+    "(depth-2 history) of matches drawn from {< <= = >= > x atom revision x package revision} + {~ x package revision} "
+    "is executed back to back in one process on version strings no other history uses, plus ascending / descending / "
+    "mixed revision sweeps; every step is judged by the same reference."
 )
 TIME_CAP = {"thorough": 1500}
 ASSUMPTIONS = [
     "Excl: (atom, package) pairs where a USE dependency without (+)/(-) names a flag absent from the package's IUSE and key, version, slot, sub-slot and repository all hold (PMS calls this an error; counted under class 'excluded-...', not judged)",
-    "Excl: '=v*' whose written version ends in a letter or a number-less suffix, or spells a revision '-r0'; versions with leading-zero components (component-prefix vs. PMS wording arguable there)",
+    "Excl: '=v*' whose written version spells a revision '-r0' or has a leading-zero component; (atom, package) pairs where '=v*' ends in a number-less suffix name and the package continues that suffix with a number (=1_p* vs 1_p1: one component by the component-prefix reading, a boundary by portage's letter/digit rule; counted under class 'excluded-glob...', not judged). '=v*' ending in a version letter or a bare suffix name is otherwise judged: both readings agree (=1_p* matches 1_p, 1_p-r1, 1_p_alpha1, not 1, 1_pre, 1_pre1)",
+    "history dimension: histories are depth 2 (all ordered pairs) plus three length-6 revision sweeps per (spelling pair, operator, atom revision); state that needs three or more differently keyed earlier calls to corrupt a verdict is not covered; each history uses its own version numbers so that histories cannot influence one another whatever the task order",
     "Excl: packages whose USE is not a subset of IUSE; USE-conditional deps ([x?], [x=], [!x?]) which need a parent USE state",
     "packages are pkgcore.test.misc.FakePkg objects with EAPI 7 (so that an IUSE entry '+x' counts as flag x in IUSE); only attributes slot, subslot, repo.repo_id, iuse, use, category, package, fullver are set by the harness",
     "only the listed version/slot/repo/flag menus are covered; nothing outside the product is claimed",
@@ -38,6 +44,14 @@ _XT = ("x", "-x", "x(+)", "x(-)", "-x(+)", "-x(-)")
 _YT = ("y", "-y", "y(+)", "y(-)", "-y(+)", "-y(-)")
 # flag z is never in any package's IUSE: the default always decides
 _ZT = [("z(+)",), ("-z(-)",), ("x", "-y", "z(+)"), ("-x", "-y", "-z(-)"), ("-x(+)", "-y(+)", "-z(+)")]
+
+
+# package versions with every suffix with and without a number (and letters), for '=v*' globs that end in a bare suffix
+# name or a version letter: _p is a string prefix of _pre
+_SUFFIX_PKG_VERS = [
+    "1_alpha", "1_alpha1", "1_beta", "1_beta1", "1_pre", "1_pre1", "1_pre2-r1", "1_rc", "1_rc1", "1_p", "1_p-r1", "1_p_alpha1",
+    "1_p_pre", "1a-r1", "1a_p1", "1b",
+]  # fmt: skip
 
 
 def _menus(tier):
@@ -60,6 +74,8 @@ def _menus(tier):
         flags = ("x", "y")
         iuse_spellings = ("",)  # plain
         mismatch_keys = ["a/q", "b/p"]
+        glob_vers = ["1_p", "1_alpha", "1_beta", "1_pre", "1_rc", "1a"]
+        extra_pkg_vers = _SUFFIX_PKG_VERS
     else:
         pkg_vers = [
             "1", "1.0", "1.1", "1.10", "1.1.1", "10", "10.1", "2", "0.9", "1-r1", "1-r2", "1-r10", "1.1-r1",
@@ -75,36 +91,45 @@ def _menus(tier):
         flags = ("x", "y")
         iuse_spellings = ("", "+")
         mismatch_keys = ["a/q", "b/p", "b/q", "a/p-x", "a/pp"]
-    return pkg_vers, atom_vers, slotmenu, repomenu, usemenu, flags, iuse_spellings, mismatch_keys
+        glob_vers = ["1_p", "1_alpha", "1_beta", "1_pre", "1_rc", "1a", "1.1_p", "1_p1_p", "1_alpha1_p", "1.1b", "1a_p"]
+        extra_pkg_vers = _SUFFIX_PKG_VERS + [
+            "1.1_p", "1.1_pre", "1.1_pre1", "1.1_p1", "1_p1_p", "1_p1_pre", "1_p1_pre1", "1_p1_p2", "1_alpha1_p", "1_alpha1_pre2-r1",
+            "1.1b", "1.1b-r1", "1.1c", "1a_p", "1a_pre", "1a_pre1", "1a_p1",
+        ]  # fmt: skip
+    return pkg_vers, atom_vers, slotmenu, repomenu, usemenu, flags, iuse_spellings, mismatch_keys, glob_vers, extra_pkg_vers
 
 
 def verops(tier):
     """(op, ver) heads, simplest first."""
     atom_vers = _menus(tier)[1]
+    glob_vers = _menus(tier)[8]
     out = [("", None)]
     for v in atom_vers:
         for op in OPS[1:]:
             if op == "~" and "-r" in v:
                 continue  # not an atom
-            if op == "=*" and not rm.glob_ok_version(v):
+            if op == "=*" and not rm.glob_open_version(v):
                 continue  # Excl
             out.append((op, v))
+    for v in glob_vers:  # written versions used with '=*' only
+        assert rm.glob_open_version(v)
+        out.append(("=*", v))
     return out
 
 
 def packages(tier):
     """Package descriptors PD + (iuse_spelled,), simplest first.  Key a/p: full product.  Key a/q (never the key of a
-    full-menu atom): versions x IUSE/USE states only."""
-    pkg_vers, _, _, _, _, flags, spellings, _ = _menus(tier)
+    full-menu atom) and the extra suffix/letter versions of a/p: versions x IUSE/USE states only."""
+    pkg_vers, _, _, _, _, flags, spellings, _, _, extra_pkg_vers = _menus(tier)
     # per-flag state: (in_iuse, spelled_prefix, enabled)
     states = [(False, "", False), (True, "", False), (True, "", True)]
     for sp in spellings:
         if sp:
             states.append((True, sp, True))
     out = []
-    for key in ("a/p", "a/q"):
-        full = key == "a/p"
-        for ver in pkg_vers:
+    for key, vers in (("a/p", pkg_vers), ("a/q", pkg_vers), ("a/p", [v for v in extra_pkg_vers if v not in pkg_vers])):
+        full = vers is pkg_vers and key == "a/p"
+        for ver in vers:
             for slot in ("0", "1") if full else ("0",):
                 for subslot in ("0", "a") if full else ("0",):
                     for repo in ("r1", "r2") if full else ("r1",):
@@ -118,7 +143,7 @@ def packages(tier):
 
 def tasks(tier):
     """One task per (key, op, ver, blocker) head; the task enumerates the slot x repo x USE menus x all packages."""
-    _, _, _, _, _, _, _, mismatch_keys = _menus(tier)
+    mismatch_keys = _menus(tier)[7]
     out = []
     for op, ver in verops(tier):
         for b in BLOCKERS:
@@ -126,12 +151,124 @@ def tasks(tier):
     for key in mismatch_keys:
         for op, ver in (("", None), ("=", "1"), ("=*", "1"), (">=", "1")):
             out.append((tier, key, op, ver, ""))
+    for ci in range(len(spelling_pairs(tier))):
+        out.append((tier, "#hist", ci, None, ""))
     return out
+
+
+# ---------------------------------------------------------------------------------------------------------------
+# history dimension: the verdict must depend on the (atom, package) pair alone
+
+HIST_OPS = ("<", "<=", "=", ">=", ">")
+
+
+def spelling_pairs(tier):
+    """(atom version template, package version template): equal by PMS, spelled differently.  '{n}' is replaced by a
+    number unique to the history, so that no two histories ever share a version string."""
+    base = [("{n}.01", "{n}.010"), ("{n}_alpha", "{n}_alpha0"), ("{n}_p0", "{n}_p"), ("{n}.0", "{n}.00")]
+    if tier != "quick":
+        base += [("0{n}", "{n}"), ("{n}.1_rc", "{n}.1_rc0"), ("{n}_beta0_p", "{n}_beta_p0"), ("{n}.010a", "{n}.01a"), ("{n}.1", "{n}.1")]
+    out = []
+    for a, b in base:
+        out.append((a, b))
+        if a != b:
+            out.append((b, a))
+    return out
+
+
+def hist_revs(tier):
+    return (None, "0", "1", "2", "3") if tier == "quick" else (None, "0", "1", "2", "3", "10")
+
+
+def _rv(ver, rev):
+    return ver if rev is None else f"{ver}-r{rev}"
+
+
+def hist_items(tier):
+    """One match = (op, atom revision, package revision); '~' takes no atom revision."""
+    revs = hist_revs(tier)
+    items = [(op, ar, pr) for op in HIST_OPS for ar in revs for pr in revs]
+    items += [("~", None, pr) for pr in revs]
+    return items
+
+
+def histories(tier, ci):
+    """All histories of spelling class ci: [(n, [(op, atom_rev, pkg_rev), ...]), ...] with n the unique number."""
+    items = hist_items(tier)
+    revs = hist_revs(tier)
+    n = 1000 + ci * 1_000_000
+    out = []
+    for first in items:  # depth 2: every ordered pair of matches
+        for second in items:
+            n += 1
+            out.append((n, (first, second)))
+    for op in HIST_OPS:  # revision sweeps with a fixed atom
+        for ar in revs:
+            asc = list(revs)
+            for order in (asc, asc[::-1], asc[3:] + asc[1:2] + asc[2:3] + asc[0:1]):
+                n += 1
+                out.append((n, tuple((op, ar, pr) for pr in order)))
+    return out
+
+
+def hist_steps(tier, ci, n, seq):
+    """Descriptors of one history: [(AD, PD), ...]."""
+    at, pt = spelling_pairs(tier)[ci]
+    av, pv = at.format(n=n), pt.format(n=n)
+    return [(("", op, "a/p", _rv(av, ar), None, None, None, None, ()), ("a/p", _rv(pv, pr), "0", "0", "r1", (), (), ())) for op, ar, pr in seq]
+
+
+def run_history(steps):
+    """Execute the matches of one history back to back (fresh objects, same process) -> [got, ...]."""
+    return [bool(build_atom(ad).match(build_pkg(pd))) for ad, pd in steps]
+
+
+def judge_history(steps, gots):
+    """-> [(step index, class, message | None)]"""
+    out = []
+    for k, ((ad, pd), got) in enumerate(zip(steps, gots)):
+        reason = rm.match_reason(ad, pd)
+        exp = reason.startswith("match")
+        cls = f"hist:{ad[1]}:{'match' if exp else 'ver-fail'}"
+        msg = None
+        if got != exp:
+            before = ", ".join(f"atom('{rm.atom_text(a)}').match({rm.pkg_cpv(p)})" for a, p in steps[:k]) or "nothing"
+            msg = (
+                f"after {before}: atom('{rm.atom_text(ad)}').match({rm.pkg_cpv(pd)}) = {got}, PMS matching says {exp} "
+                f"(the verdict must not depend on earlier matches)"
+            )
+        out.append((k, cls, msg))
+    return out
+
+
+def work_hist(task):
+    tier, _, ci, _, _ = task
+    evals = 0
+    classes = {}
+    viol = []
+    nper = {}
+    samples = []
+    for n, seq in histories(tier, ci):
+        steps = hist_steps(tier, ci, n, seq)
+        gots = run_history(steps)
+        for k, cls, msg in judge_history(steps, gots):
+            evals += 1
+            classes[cls] = classes.get(cls, 0) + 1
+            if msg is not None:
+                key = (cls, k, len(seq))
+                if nper.get(key, 0) < 2:
+                    nper[key] = nper.get(key, 0) + 1
+                    # the recorded history is cut after the failing step: the replay re-runs exactly that prefix
+                    viol.append({"hist": [[list(a), list(p)] for a, p in steps[: k + 1]], "got": gots[k], "msg": msg})
+        if len(samples) < 2:
+            samples.append([rm.atom_text(steps[0][0]), rm.pkg_cpv(steps[0][1]), rm.atom_text(steps[-1][0]), rm.pkg_cpv(steps[-1][1])])
+    viol.sort(key=lambda c: (len(c["hist"]), c["msg"]))
+    return {"evals": evals, "classes": classes, "viol": viol, "samples": samples, "keep_all_viol": True}
 
 
 def atoms_of(task):
     tier, key, op, ver, blocker = task
-    _, _, slotmenu, repomenu, usemenu, _, _, _ = _menus(tier)
+    slotmenu, repomenu, usemenu = _menus(tier)[2:5]
     for slot, subslot, slotop in slotmenu:
         for repo in repomenu:
             for use in usemenu:
@@ -180,6 +317,8 @@ def judge(ad, pd, got):
     cls = classify(ad, pd, reason)
     if reason == "excluded":
         return "excluded-nodefault-usedep-flag-not-in-iuse", None
+    if reason == "excluded-glob":
+        return "excluded-glob-bare-suffix-continued-by-number", None
     exp = reason.startswith("match")
     if bool(got) == exp:
         return cls, None
@@ -191,6 +330,8 @@ def judge(ad, pd, got):
 
 
 def work(task):
+    if task[1] == "#hist":
+        return work_hist(task)
     tier = task[0]
     pds = packages(tier)
     pkgs = [build_pkg(pd) for pd in pds]
@@ -229,6 +370,11 @@ def _t(lst):
 
 
 def replay(case):
+    if "hist" in case:
+        # rebuild the whole history in this (fresh) process; the case holds the prefix up to the failing step
+        steps = [(_t(a), _t(p)) for a, p in case["hist"]]
+        res = judge_history(steps, run_history(steps))
+        return [msg for k, _, msg in res if msg is not None and k == len(steps) - 1]
     ad = _t(case["atom"])
     pd = _t(case["pkg"])
     got = build_atom(ad).match(build_pkg(pd))
@@ -244,6 +390,8 @@ def _glob_raw_prefix(case):
     """'=v*' matched a package whose version text starts with v although v's components are not a prefix of the
     package's components, and no other constraint of the atom fails on the package (or the only other failing
     constraint is one the known defect 'negated-use-deps-nand' lets through)."""
+    if "hist" in case:
+        return False
     ad, pd = _t(case["atom"]), _t(case["pkg"])
     if not (ad[1] == "=*" and case.get("got") is True and rm.match_reason(ad, pd) == "ver" and pd[1].startswith(ad[3])):
         return False
@@ -257,6 +405,8 @@ def _glob_raw_prefix(case):
 def _negated_use_group(case):
     """Atom with >= 2 negated USE deps sharing the same default marker matched a package on which at least one, but
     not all, of those flags is enabled (and nothing else about the pair fails)."""
+    if "hist" in case:
+        return False
     ad, pd = _t(case["atom"]), _t(case["pkg"])
     if case.get("got") is not True or rm.match_reason(ad, pd) not in ("use", "use-default"):
         return False
@@ -290,10 +440,14 @@ def family(case):
 
 
 BOUNDS = {
-    "quick": "35 operator/version heads (none; < <= = ~ >= > =* x 1, 1.1, 1-r1, 1_p1, 10) x 3 blocker forms x 7 slot forms (incl. sub-slot equal to slot) x 2 repo forms x 21 "
-    "USE-dep forms (+ 8 key-mismatch heads) = 28 476 atoms, each against 1 134 packages (a/p: 14 versions x 2 slots x 2 sub-slots x "
-    "2 repos x 9 IUSE/USE states; a/q: 14 versions x 9 states) = 32.3 M matches",
-    "thorough": "61 heads (9 written versions) x 3 blockers x 8 slot forms x 3 repo forms x 48 USE-dep forms (all 36 x-token x y-token "
-    "pairs) (+ 20 key-mismatch heads) = 233 856 atoms, each against 2 592 packages (18 versions; IUSE also spelled '+flag') = 606 M matches; "
-    "time cap 1500 s",
+    "quick": "41 operator/version heads (none; < <= = ~ >= > =* x 1, 1.1, 1-r1, 1_p1, 10; =* also on 1_p, 1_alpha, 1_beta, 1_pre, 1_rc, 1a) x "
+    "3 blocker forms x 7 slot forms (incl. sub-slot equal to slot) x 2 repo forms x 21 USE-dep forms (+ 8 key-mismatch heads) = 38 514 atoms, "
+    "each against 1 278 packages (a/p: 14 versions x 2 slots x 2 sub-slots x 2 repos x 9 IUSE/USE states; a/q: 14 versions x 9 states; "
+    "a/p: 16 suffix/letter versions (every suffix with and without number) x 9 states) = 49.2 M matches; history dimension: 8 spelling "
+    "pairs (x.01/x.010, x_alpha/x_alpha0, x_p0/x_p, x.0/x.00, both directions) x (130 x 130 depth-2 histories over {5 operators x 5 atom "
+    "revisions x 5 package revisions} + {~ x 5} + 75 revision sweeps) = 135 800 histories, 273 400 judged steps",
+    "thorough": "72 heads (9 written versions; =* also on 11 versions ending in a bare suffix name or letter) x 3 blockers x 8 slot forms x 3 repo "
+    "forms x 48 USE-dep forms (all 36 x-token x y-token pairs) (+ 20 key-mismatch heads) = 275 328 atoms, each against 3 104 packages (18 "
+    "versions; 33 suffix/letter versions; IUSE also spelled '+flag') = 855 M matches; history dimension: 17 spelling pairs, 6 revisions "
+    "(none, r0-r3, r10), 589 662 histories, 1.19 M judged steps; time cap 1500 s",
 }
